@@ -233,11 +233,19 @@ pub mod csv {
         dir_path.join(fname_only)
     }
 
+    // The rates are written to this file first, which then replaces the
+    // real file (rates_csv_file_path) atomically, so that an interrupted write
+    // can never leave a partially written (but still parsable) rates file.
+    fn rates_csv_tmp_file_path(dir_path: &std::path::Path, year: u32) -> PathBuf {
+        let fname_only = format!("rates-{}.csv.tmp", year);
+        dir_path.join(fname_only)
+    }
+
     fn open_rates_csv_file_write(
         dir_path: &std::path::Path,
         year: u32,
     ) -> Result<File, SError> {
-        let file_path = rates_csv_file_path(dir_path, year);
+        let file_path = rates_csv_tmp_file_path(dir_path, year);
         crate::util::os::mk_writable_dir(dir_path).map_err(|e| e.to_string())?;
         File::create(file_path).map_err(|e| e.to_string())
     }
@@ -299,7 +307,18 @@ pub mod csv {
                     r.as_ref().err().unwrap()
                 );
             }
-            r
+            r?;
+
+            // Make the new content durable, then put it in place atomically.
+            let file = csv_w.into_inner().map_err(|e| e.to_string())?;
+            file.sync_all().map_err(|e| e.to_string())?;
+            drop(file);
+            let renamed = std::fs::rename(
+                rates_csv_tmp_file_path(&self.dir_path, year),
+                rates_csv_file_path(&self.dir_path, year),
+            )
+            .map_err(|e| e.to_string());
+            renamed
         }
 
         fn get_usd_cad_rates(
